@@ -350,6 +350,20 @@ func (r *Raft) restore() error {
 		if err := r.fsm.Restore(file); err != nil {
 			return fmt.Errorf("could not restore state machine with snapshot: %w", err)
 		}
+
+		// If this node crashed after a received snapshot was saved but before its log was
+		// discarded, the log ends before the snapshot does or conflicts with it. Such a log
+		// can never be extended by the leader: finish the job that the crash interrupted.
+		discardLog := r.log.LastIndex() < metadata.LastIncludedIndex
+		if entry, err := r.log.GetEntry(metadata.LastIncludedIndex); err == nil &&
+			entry.Term != metadata.LastIncludedTerm {
+			discardLog = true
+		}
+		if discardLog {
+			if err := r.log.DiscardEntries(metadata.LastIncludedIndex, metadata.LastIncludedTerm); err != nil {
+				return fmt.Errorf("could not discard log entries: %w", err)
+			}
+		}
 		configuration, err := r.transport.DecodeConfiguration(metadata.Configuration)
 		if err != nil {
 			return fmt.Errorf("could not decode snapshot configuration: %w", err)
